@@ -2,7 +2,7 @@
 (* Generator for C08: a dialect-sensitive element inside every nesting      *)
 (* construct, at depth 1 and 2.                                             *)
 EXTENDS PT_Dialect, Json
-Elements == {"quoted-names", "placeholder", "boolean", "array", "interval", "pagination", "groupby-alias", "string-value", "alias"}
+Elements == {"quoted-names", "placeholder", "boolean", "array", "interval", "pagination", "groupby-alias", "string-value", "alias", "backslash-string", "json-value"}
 Constructs == {"top", "subquery-from", "subquery-join", "subquery-in", "subquery-select", "cte", "setop-base", "setop-operand", "insert-select", "create-as"}
 VARIABLES elem, c1, c2
 Init == elem \in Elements /\ c1 \in Constructs /\ c2 \in Constructs \cup {"none"}
@@ -10,5 +10,5 @@ Next == UNCHANGED <<elem, c1, c2>>
 \* the element is inside construct c1, which (depth 2) is itself inside c2
 Emit == PrintT("P " \o ToJson([elem |-> elem, nest |-> IF c2 = "none" THEN <<c1>> ELSE <<c1, c2>>]))
 \* the conventions differ between at least two dialects for every convention (the product is not vacuous)
-Distinct == \A f \in {"idq", "ph", "bool", "array", "ivl", "wrap", "pag", "gba"} : \E a, b \in Dialects : Conv[a][f] # Conv[b][f]
+Distinct == \A f \in {"idq", "ph", "bool", "array", "ivl", "wrap", "pag", "gba", "esc"} : \E a, b \in Dialects : Conv[a][f] # Conv[b][f]
 =============================================================================
